@@ -34,7 +34,7 @@ def models(tier, seed):
 
 def required_tags(tier):
     return ['float', 'neighbour', 'carry', 'complex:cartesian', 'complex:polar', 'helper:print_real', 'helper:print_sinosoidal', 'helper:print_active_power',
-            'helper:print_resistance', 'helper:print_capacitance', 'helper:print_inductance', 'helper:print_impedance', 'table:none', 'table:display', 'inf']
+            'helper:print_resistance', 'helper:print_capacitance', 'helper:print_inductance', 'helper:print_impedance', 'table:none', 'table:display', 'inf', 'random']
 
 
 def replay(case, ctx):      # replay of one recorded event: render again and judge again
@@ -137,6 +137,11 @@ def grid(tier, rng):
         for p in (1, 3, 5):
             for t in ['none', 'default', 'display']:
                 out.append({'kind': 'float', 'm': 2, 'e10': e10, 'sgn': 1 if e10 % 2 else -1, 'p': p, 'table': t, 'unit': 'V', 'tag': 'inf'})
+    # random doubles elsewhere: 7-digit decimal mantissas (the judge works at <= 6 digits, so the decimal IS the value for its purposes)
+    for _ in range(20000 if tier == 'quick' else 200000):
+        m = rng.randrange(10 ** 6, 10 ** 7)
+        e10 = rng.randrange(-21, 9)
+        out.append({'kind': 'float', 'm': m, 'e10': e10, 'sgn': rng.choice([1, -1]), 'p': rng.randrange(1, 7), 'table': rng.choice(tables_float), 'unit': rng.choice(['', 'V', 'A']), 'tag': 'random'})
     # the Display helpers
     helpers = [('print_real', 'display', 'V'), ('print_abs', 'display', 'A'), ('print_active_power', 'default', 'W'), ('print_resistance', 'ohm', 'Ω'), ('print_conductance', 'ohm', 'S'),
                ('print_capacitance', 'farad', 'F'), ('print_inductance', 'henry', 'H')]
